@@ -55,6 +55,7 @@ func c05(tier string) []*explore.Scenario {
 	out = append(out, c05FailedWrite(2), c05FailedWrite(1))
 	// per-call order over the HTTP transport (one POST, one serving goroutine per envelope)
 	out = append(out, explore.Sharded(c19HTTPOrder("C05", 2, 2), 8)...)
+	out = append(out, c05EmptyReplies("C05", 1))
 	out = append(out, c01FailedWriteOlder("C05", 1))
 	for _, way := range []string{"cancelled", "expired", "expires-in-write"} {
 		out = append(out, c05DeadContextCall("C05", way, 64, 1), c05DeadContextCall("C05", way, 0, 1))
@@ -561,6 +562,55 @@ func c05DeadContextCall(prop, way string, capn, bound int) *explore.Scenario {
 			checkUnary(c, "y", fam)
 			if !stDone || st.CErr != io.EOF || !eqStrs(st.CRecv, st.HSent) || len(st.CRecv) != 2 || len(st.CSendErrs) > 0 {
 				vsched.Fail(fam+"|stream", "the stream open while another call was made with a %s context did not go on and complete: %s", way, st.Summary())
+			}
+			finishDirect(d, w, true)
+		},
+	}
+}
+
+// c05EmptyReplies: unary calls whose reply is the zero message (it encodes to no bytes) or no reply object at
+// all, between calls with ordinary replies, all received into a reply object that is not fresh: each caller
+// sees exactly its own call's reply - an empty one is empty, not what the object held before, and not an error.
+func c05EmptyReplies(prop string, bound int) *explore.Scenario {
+	fam := prop + "/empty-replies"
+	return &explore.Scenario{
+		Name: fmt.Sprintf("%s/empty-replies/d=%d", prop, bound), Family: fam, Prop: prop, Bound: bound,
+		Run: func() {
+			w := env.NewWorld()
+			d := env.NewDirect(w, env.DirectOpts{Pipe: env.PipeOpts{Cap: 64}})
+			vsched.Settle()
+			vsched.Explore(true)
+			kinds := []string{"full", "zero", "full", "nil", "zero"}
+			var rs []*env.Rec
+			for i, k := range kinds {
+				k := k
+				r := w.Rec(fmt.Sprintf("e%d", i), "Unary")
+				rs = append(rs, r)
+				w.Unaries[r.Tag] = func(r *env.Rec, ctx context.Context, in string) (string, error) {
+					switch k {
+					case "zero":
+						return "", nil
+					case "nil":
+						return env.NilReply, nil
+					}
+					return "R:" + in, nil
+				}
+			}
+			// two at once, then the rest one after the other
+			vsched.GoNamed("caller-e0", func() { w.CallUnary(d.CC, context.Background(), rs[0], "x") })
+			vsched.GoNamed("caller-e1", func() { w.CallUnary(d.CC, context.Background(), rs[1], "x") })
+			vsched.Quiesce()
+			for _, r := range rs[2:] {
+				w.CallUnary(d.CC, context.Background(), r, "x")
+			}
+			for i, r := range rs {
+				want := "R:" + r.Tag + "|x"
+				if kinds[i] != "full" {
+					want = ""
+				}
+				if !r.CDone || r.CErr != nil || r.CReply != want || r.HStarts != 1 {
+					vsched.Fail(fam+"|reply", "call %s (handler reply kind %s): done=%v err=%v reply=%q want %q handler runs=%d", r.Tag, kinds[i], r.CDone, r.CErr, r.CReply, want, r.HStarts)
+				}
 			}
 			finishDirect(d, w, true)
 		},
